@@ -94,7 +94,9 @@ func (model *ProtDistModel) MLDist(a align.Alignment, weights []float64) (p, q, 
 				sum = mat.Sum(Fs)
 
 				if sum < .001 {
-					d_max = -1.
+					// No selected site where both sequences have an amino acid:
+					// as in JC69Dist (p=1), the pair is given the maximum distance
+					d_max = PROT_DIST_MAX
 				} else if (sum > 1.-.001) && (sum < 1.+.001) {
 					d_max = model.opt_Dist_F(d_max, Fs)
 				} else {
